@@ -4,6 +4,7 @@ import (
 	"encoding/json"
 	"fmt"
 	"os"
+	"sort"
 	"time"
 
 	"github.com/osmosis-labs/osmosis/v31/zzverif/core"
@@ -12,8 +13,10 @@ import (
 // Engine D, map-iteration axis. The patched runtime asks mapHook where every `range` over a map
 // starts. While a workload runs, every iteration over a map with >= 2 entries executed by the
 // workload's goroutine is a choice point: default answer 0 (first bucket, first slot); the explorer
-// re-executes the workload once per (choice point, alternative start) and requires identical
-// results and identical store content after every block.
+// re-executes the workload once per (choice point, alternative start), once per whole-schedule
+// rotation (every choice point deviating at once) and, for the shortest scripts in the thorough
+// tier, once per nearby pair of choice points, and requires identical results and identical store
+// content after every block.
 
 type choicePoint struct {
 	Count uintptr
@@ -27,11 +30,21 @@ type mapOwner struct {
 	idx     int
 	devAt   int
 	devR    uintptr
+	devAt2  int
+	devR2   uintptr
+	sched   int // 0 = none; 1..7 every choice point starts at rotation s; 8 = every odd choice point at rotation 1
 	log     []choicePoint
 	inHook  bool
 }
 
-var mo = mapOwner{devAt: -1, log: make([]choicePoint, 0, 1<<20)}
+var mo = mapOwner{devAt: -1, devAt2: -1, log: make([]choicePoint, 0, 1<<20)}
+
+// rotation is the start position of whole-schedule rotation s for a map with 2^B buckets: slot offset s
+// and a start bucket that varies with s.
+func rotation(s int, B uintptr) uintptr {
+	mask := (uintptr(1) << B) - 1
+	return uintptr(s)<<B | (uintptr(s)*0x9E3779B1)&mask
+}
 
 func mapHook(count, B, r, goid uintptr) uintptr {
 	if mo.capture {
@@ -52,8 +65,15 @@ func mapHook(count, B, r, goid uintptr) uintptr {
 		mo.log = append(mo.log, choicePoint{count, B})
 	}
 	ret := uintptr(0)
-	if i == mo.devAt {
+	switch {
+	case i == mo.devAt:
 		ret = mo.devR
+	case i == mo.devAt2:
+		ret = mo.devR2
+	case mo.sched >= 1 && mo.sched <= 7:
+		ret = rotation(mo.sched, B)
+	case mo.sched == 8 && i%2 == 1:
+		ret = rotation(1, B)
 	}
 	mo.inHook = false
 	return ret
@@ -72,33 +92,52 @@ func installMapHook() {
 	}
 }
 
-// alternatives for one choice point: every other slot offset of the start bucket, and for maps with
-// several buckets also other start buckets.
-func alternatives(cp choicePoint, all bool) []uintptr {
-	var out []uintptr
-	offs := []uintptr{1}
-	if all {
-		offs = []uintptr{1, 2, 3, 4, 5, 6, 7}
+// Alternative starts for one choice point, most different first. level 0: one alternative (another slot
+// offset; for maps with several buckets also another start bucket); level 1: two (the quick tier of the
+// first-generation scripts); level 2: three or four; level 3: every slot offset and three other start buckets.
+func alternatives(cp choicePoint, level int) []uintptr {
+	last := (uintptr(1) << cp.B) - 1
+	switch level {
+	case 0:
+		if cp.B > 0 {
+			return []uintptr{last | (3 << cp.B)}
+		}
+		return []uintptr{1}
+	case 1:
+		out := []uintptr{1 << cp.B}
+		if cp.B > 0 {
+			out = append(out, last|(3<<cp.B))
+		}
+		return out
+	case 2:
+		if cp.B > 0 {
+			return []uintptr{last | (3 << cp.B), 1 << cp.B, 1, 5 << cp.B}
+		}
+		return []uintptr{1, 3, 5}
 	}
-	for _, o := range offs {
+	var out []uintptr
+	for _, o := range []uintptr{1, 2, 3, 4, 5, 6, 7} {
 		out = append(out, o<<cp.B)
 	}
 	if cp.B > 0 {
-		last := (uintptr(1) << cp.B) - 1
-		if all {
-			out = append(out, 1, last, last|(3<<cp.B))
-		} else {
-			out = append(out, last|(3<<cp.B))
-		}
+		out = append(out, 1, last, last|(3<<cp.B))
 	}
 	return out
 }
 
+type deviation struct {
+	At, At2 int
+	R, R2   uintptr
+	Sched   int
+}
+
+var noDeviation = deviation{At: -1, At2: -1}
+
 // runWithDeviation executes a script on a fresh node with the hook active during block execution.
-func runWithDeviation(sc Script, devAt int, devR uintptr) ([][]Step, []choicePoint) {
-	n := genesisNode()
+func runWithDeviation(sc Script, d deviation) ([][]Step, []choicePoint) {
+	n := newNode(sc)
 	defer n.Env.Close()
-	mo.idx, mo.devAt, mo.devR = 0, devAt, devR
+	mo.idx, mo.devAt, mo.devR, mo.devAt2, mo.devR2, mo.sched = 0, d.At, d.R, d.At2, d.R2, d.Sched
 	mo.log = mo.log[:0]
 	var out [][]Step
 	for _, b := range sc.Blocks {
@@ -107,56 +146,162 @@ func runWithDeviation(sc Script, devAt int, devR uintptr) ([][]Step, []choicePoi
 		mo.enabled = false
 		out = append(out, st)
 	}
+	mo.sched = 0
 	lg := append([]choicePoint{}, mo.log...)
 	return out, lg
 }
 
-func mapOrderAxis(f *core.Flags, r *core.Result, sc Script, only *replayCfg, item *int) {
+// firstGeneration scripts keep the enumeration they had before the workloads were extended.
+var firstGeneration = map[string]bool{"dex": true, "skim": true, "sf": true}
+
+// pairScripts: the shortest scripts get bound-2 deviations (pairs of choice points at most pairWindow apart) in the thorough tier.
+var pairScripts = map[string]bool{"valset": true, "unpool": true, "clsame": true}
+
+const pairWindow = 8
+
+// mapOrderPlan: which single deviations a script gets in a tier (alternative level, stride over the choice points; level -1 = none).
+func mapOrderPlan(sc Script, tier string) (level, stride int) {
+	thorough := tier == "thorough"
+	switch {
+	case firstGeneration[sc.Name]:
+		if thorough {
+			return 3, 1
+		}
+		return 1, 1
+	case sc.Heavy:
+		if thorough {
+			return 0, 1
+		}
+		return -1, 1
+	default:
+		if thorough {
+			return 2, 1
+		}
+		return 0, 8
+	}
+}
+
+type moItem struct {
+	sc   int
+	rank int
+	d    deviation
+}
+
+func (it moItem) replayDev() []int {
+	switch {
+	case it.d.Sched != 0:
+		return []int{-1, it.d.Sched}
+	case it.d.At2 >= 0:
+		return []int{it.d.At, int(it.d.R), it.d.At2, int(it.d.R2)}
+	}
+	return []int{it.d.At, int(it.d.R)}
+}
+
+func sameDev(a, b []int) bool {
+	if len(a) != len(b) {
+		return false
+	}
+	for i := range a {
+		if a[i] != b[i] {
+			return false
+		}
+	}
+	return true
+}
+
+// mapOrderAxis: for every script, the reference schedule twice (it must reproduce itself), then the work
+// items of all scripts ordered by alternative rank, so that a run cut short by the deadline has deviated
+// every choice point of every script once before any gets its second alternative.
+func mapOrderAxis(f *core.Flags, r *core.Result, scripts []Script, only *replayCfg, item *int) {
 	if !haveMapHook {
 		return
 	}
-	ref, log0 := runWithDeviation(sc, -1, 0)
-	ref2, log1 := runWithDeviation(sc, -1, 0)
-	a, _ := json.Marshal(ref)
-	b, _ := json.Marshal(ref2)
-	if string(a) != string(b) || len(log0) != len(log1) {
-		// the same schedule replayed twice must give identical observations before anything is believed
-		r.AddViolation(core.Violation{Property: f.Prop, Assertion: "c19.same-schedule-same-result", Signature: sc.Name,
-			Detail: fmt.Sprintf("two executions with every map iteration starting at the default position differ (choice points %d vs %d)", len(log0), len(log1)),
-			Replay: replayCfg{Script: sc.Name, Axis: "maporder-ref"}})
-		return
-	}
-	r.Extra["max_choice_points_"+sc.Name] = float64(len(log0))
-	multi := 0
-	for _, cp := range log0 {
-		if cp.B > 0 {
-			multi++
+	refs := make([][][]Step, len(scripts))
+	logs := make([][]choicePoint, len(scripts))
+	failed := make([]bool, len(scripts))
+	// reference computes (once per process) the reference schedule of a script; the shard that owns the
+	// script executes it twice: the same schedule must reproduce itself before anything is believed.
+	reference := func(si int) bool {
+		if refs[si] != nil || failed[si] {
+			return !failed[si]
 		}
+		sc := scripts[si]
+		ref, log0 := runWithDeviation(sc, noDeviation)
+		if f.Replay != "" || f.Mine(si) {
+			ref2, log1 := runWithDeviation(sc, noDeviation)
+			a, _ := json.Marshal(ref)
+			b, _ := json.Marshal(ref2)
+			if string(a) != string(b) || len(log0) != len(log1) {
+				r.AddViolation(core.Violation{Property: f.Prop, Assertion: "c19.same-schedule-same-result", Signature: sc.Name,
+					Detail: fmt.Sprintf("two executions with every map iteration starting at the default position differ (choice points %d vs %d)", len(log0), len(log1)),
+					Replay: replayCfg{Script: sc.Name, Axis: "maporder-ref"}})
+				failed[si] = true
+				return false
+			}
+		}
+		refs[si], logs[si] = ref, log0
+		r.Extra["max_choice_points_"+sc.Name] = float64(len(log0))
+		multi := 0
+		for _, cp := range log0 {
+			if cp.B > 0 {
+				multi++
+			}
+		}
+		r.Extra["max_multibucket_choice_points_"+sc.Name] = float64(multi)
+		return true
 	}
-	r.Extra["max_multibucket_choice_points_"+sc.Name] = float64(multi)
-	all := f.Tier == "thorough"
-	// work items: alternative rank outermost so that a run cut short by the deadline has still
-	// deviated every choice point once before any gets its second alternative
-	type itemT struct {
-		i   int
-		alt uintptr
-	}
-	var items []itemT
-	for rank := 0; rank < 12; rank++ {
-		for i, cp := range log0 {
-			alts := alternatives(cp, all)
-			if rank < len(alts) {
-				items = append(items, itemT{i, alts[rank]})
+	var items []moItem
+	for si, sc := range scripts {
+		if f.Replay != "" && sc.Name != only.Script {
+			continue
+		}
+		level, stride := mapOrderPlan(sc, f.Tier)
+		if f.Replay != "" {
+			level, stride = 3, 1 // a replay names its deviation; accept any
+		}
+		pairs := (f.Tier == "thorough" || f.Replay != "") && pairScripts[sc.Name]
+		// whole-schedule rotations: every choice point deviates at once
+		for s := 1; s <= 8; s++ {
+			items = append(items, moItem{sc: si, rank: 0, d: deviation{At: -1, At2: -1, Sched: s}})
+		}
+		r.Extra["sum_map_order_items_"+sc.Name] = float64(0)
+		if level < 0 && !pairs {
+			continue // only rotations: the reference is computed by the shards that execute one
+		}
+		if !reference(si) {
+			continue
+		}
+		log0 := logs[si]
+		if level >= 0 {
+			for i, cp := range log0 {
+				if i%stride != 0 {
+					continue
+				}
+				for rank, alt := range alternatives(cp, level) {
+					items = append(items, moItem{sc: si, rank: 1 + rank, d: deviation{At: i, R: alt, At2: -1}})
+				}
+			}
+		}
+		if pairs {
+			for i := range log0 {
+				for j := i + 1; j <= i+pairWindow && j < len(log0); j++ {
+					items = append(items, moItem{sc: si, rank: 20, d: deviation{At: i, R: alternatives(log0[i], 0)[0], At2: j, R2: alternatives(log0[j], 0)[0]}})
+				}
 			}
 		}
 	}
-	r.Extra["sum_map_order_items_"+sc.Name] = float64(0)
+	sort.SliceStable(items, func(a, b int) bool { return items[a].rank < items[b].rank })
+	done := map[string]bool{}
 	for _, it := range items {
-		i, alt, cp := it.i, it.alt, log0[it.i]
+		sc := scripts[it.sc]
 		mine := f.Replay == "" && f.Mine(*item)
 		*item++
 		if f.Replay != "" {
-			mine = only.Axis == "maporder" && len(only.Dev) == 2 && only.Dev[0] == i && uintptr(only.Dev[1]) == alt
+			key := fmt.Sprint(it.replayDev())
+			mine = only.Axis == "maporder" && sameDev(only.Dev, it.replayDev()) && !done[key]
+			if mine {
+				done[key] = true
+			}
 		}
 		if !mine {
 			continue
@@ -166,10 +311,26 @@ func mapOrderAxis(f *core.Flags, r *core.Result, sc Script, only *replayCfg, ite
 			r.Exhaustive = false
 			continue
 		}
-		got, _ := runWithDeviation(sc, i, alt)
+		if !reference(it.sc) {
+			continue
+		}
+		got, _ := runWithDeviation(sc, it.d)
 		r.Transitions += int64(len(got) * 3)
 		r.Traces++
-		r.Vacuity["map_order_deviations_executed"]++
+		what := ""
+		switch {
+		case it.d.Sched != 0:
+			r.Vacuity["map_order_schedules_executed"]++
+			what = fmt.Sprintf("whole-schedule rotation %d (every map iteration of the workload started elsewhere)", it.d.Sched)
+		case it.d.At2 >= 0:
+			r.Vacuity["map_order_pair_deviations_executed"]++
+			what = fmt.Sprintf("choice points %d and %d started at %d and %d instead of 0", it.d.At, it.d.At2, it.d.R, it.d.R2)
+		default:
+			r.Vacuity["map_order_deviations_executed"]++
+			cp := logs[it.sc][it.d.At]
+			what = fmt.Sprintf("choice point %d (map with %d entries, %d bucket bits) started at %d instead of 0", it.d.At, cp.Count, cp.B, it.d.R)
+		}
+		ref := refs[it.sc]
 		for bi := range got {
 			if bi >= len(ref) {
 				break
@@ -177,8 +338,8 @@ func mapOrderAxis(f *core.Flags, r *core.Result, sc Script, only *replayCfg, ite
 			if d := diffSteps(ref[bi], got[bi], false); d != "" {
 				r.AddViolation(core.Violation{Property: f.Prop, Assertion: "c19.map-iteration-order-independent",
 					Signature: fmt.Sprintf("%s|block %d|%s", sc.Name, bi, firstDiffStep(ref[bi], got[bi])),
-					Detail: fmt.Sprintf("choice point %d (map with %d entries, %d bucket bits) started at %d instead of 0: %s", i, cp.Count, cp.B, alt, d),
-					Replay: replayCfg{Script: sc.Name, Axis: "maporder", Dev: []int{i, int(alt)}}})
+					Detail:    what + ": " + d,
+					Replay:    replayCfg{Script: sc.Name, Axis: "maporder", Dev: it.replayDev()}})
 				break
 			}
 		}
@@ -214,7 +375,7 @@ func nowHook() (time.Time, bool) {
 }
 
 func runWithClock(sc Script, mode int) ([][]Step, int) {
-	n := genesisNode()
+	n := newNode(sc)
 	defer n.Env.Close()
 	ck.mode, ck.calls = mode, 0
 	var out [][]Step
